@@ -349,7 +349,8 @@ func (c *Cluster) fetchOnce(b *Broker, r *Request, act *Action, totalMax int, ma
 			resp["HighWatermark"], resp["LastStableOffset"], resp["LogStartOffset"] = p.End, p.End, p.LogStart
 			var raw []byte
 			readCommitted := r.Version >= 4 && i64(r.Body, "IsolationLevel") == 1 && p.OpenTxnFrom > 0 && p.OpenTxnFrom < p.End
-			if readCommitted {
+			if r.Version >= 4 && p.OpenTxnFrom > 0 && p.OpenTxnFrom < p.End {
+				// brokers report the last stable offset to every consumer; only read_committed ones are held back at it
 				resp["LastStableOffset"] = p.OpenTxnFrom
 			}
 			if r.Version >= 4 && i64(r.Body, "IsolationLevel") == 1 && len(p.Aborted) > 0 {
